@@ -129,7 +129,7 @@ PROPS = {
         level_text="Theorems on M8's validator: each invalid class is rejected wherever it occurs, acceptance iff every component is well formed; validator compared with validate.ActionResult on generated messages; server oracle: rejected => nothing served, accepted => served equal modulo worker name, JSON = proto, latest wins. Read-side inlining (model M8b): contents preserved, 3 MiB budget kept, request honoured when it fits, otherwise by true digest with the bytes in the CAS; conditions and visit order of maybeInline regenerated from the source (Bridge.Inline); GetActionResult compared with the model on generated results around the budget.",
         level_note=NOTE + "the validator's verdicts are compared message by message.", technique=TECH),
     "C14": dict(
-        lean="BR.Props.C14", runs=[BLOB, PARSERS, HANDLERS, BYTESTREAM, FDLEAK, UPLOADLEAK, HTTPLEAK], trusted_base=COMMON_TB + ["third-party decoders, the Go runtime and grpc-go are outside the model"],
+        lean="BR.Props.C14", runs=[BLOB, PARSERS, HANDLERS, BYTESTREAM, FDLEAK, UPLOADLEAK, HTTPLEAK, GRPCPROXY], trusted_base=COMMON_TB + ["third-party decoders, the Go runtime and grpc-go are outside the model"],
         assumptions=["memory exhaustion and real-time hangs cannot be exhibited by the model"],
         level_text="Partial. Theorems: casblob readers total on every byte string, resource-name parsers total, validator and GetTree walk handle absent sub-messages, Write answers every message sequence. Harness: every handler called in-process under recover with absent sub-messages and ill-formed stored blobs; mutated stored files; goroutine/reservation leak oracle. Refused / rejected / aborted uploads on 12 paths and refused SpliceBlob: no handler goroutine, descriptor, reservation or temp file left; descriptor oracle for aborted downloads.",
         level_note=NOTE + "partial: goroutine life cycle, third-party panics and resource exhaustion are checked by oracle only.", technique=TECH),
